@@ -104,8 +104,17 @@ def _as_store(t):
     return t
 
 
+PURE_CALLS = {"bitwise_xor"}      # numpy element-wise functions without side effects
+
+
 def _has_call(e):
-    return any(isinstance(n, ast.Call) for n in ast.walk(e))
+    for n in ast.walk(e):
+        if isinstance(n, ast.Call):
+            f = n.func
+            if isinstance(f, ast.Attribute) and f.attr in PURE_CALLS:
+                continue
+            return True
+    return False
 
 
 class IfConv(ast.NodeTransformer):
@@ -121,6 +130,16 @@ class IfConv(ast.NodeTransformer):
         self.stack.append(node.name)
         self.generic_visit(node)
         self.stack.pop()
+        return node
+
+    def visit_For(self, node):
+        # `if C: continue` followed only by assignments  ->  `if not C: <assignments>` (then if-converted below)
+        if self.stack and self.stack[-1] in self.allow and len(node.body) >= 2 and isinstance(node.body[0], ast.If) \
+                and not node.body[0].orelse and len(node.body[0].body) == 1 and isinstance(node.body[0].body[0], ast.Continue) \
+                and all(isinstance(st, (ast.Assign, ast.AugAssign)) for st in node.body[1:]):
+            test = ast.Call(_name("__symx_not__"), [node.body[0].test], [])
+            node.body = [ast.If(test, node.body[1:], [])]
+        self.generic_visit(node)
         return node
 
     def visit_If(self, node):
